@@ -76,7 +76,15 @@ def gen_scripts(ctx):
         sc = json.load(open(p))
         sc.pop("comment", None)
         scripts.append(sc)
-    n = 600 if ctx.thorough else 64
+    # fault + race family: a victim flight with failures at chosen operations, a complete competitor flight of another node
+    # inserted before each of its operations, then full flights elsewhere
+    for fails in ([], [2], [3], [3, 4], [3, 5], [0], [1]):
+        for ins in range(0, 8):
+            if not ctx.thorough and (len(fails) == 1 and fails[0] in (0, 1)) and ins > 2:
+                continue
+            scripts.append({"id": "pair_f%s_i%d" % ("".join(map(str, fails)) or "none", ins), "nodes": 3, "mode": "pair", "flavor": "guarded",
+                            "fails": fails, "insert_at": ins})
+    n = 600 if ctx.thorough else 40
     for i in range(n):
         flavor = ["guarded", "claimless", "overlap", "guarded"][i % 4]
         scripts.append({"id": "r%d" % i, "nodes": 3, "mode": "random", "seed": ctx.rng.randrange(1, 2 ** 62),
@@ -129,7 +137,7 @@ def run(ctx):
     with open(os.path.join(ctx.work, "c30_scripts.jsonl"), "w") as f:
         for sc in scripts:
             f.write(json.dumps(sc) + "\n")
-    for fn in ("c30_traces.jsonl", "c30_stress.jsonl"):
+    for fn in ("c30_traces.jsonl", "c30_stress.jsonl", "c30_flight.jsonl"):
         p = os.path.join(ctx.work, fn)
         if os.path.exists(p):
             os.remove(p)
@@ -256,6 +264,18 @@ def run(ctx):
         if m is not None and m["mismatch"] is None and m["max_live"] != t["max_live"]:
             ctx.tie_broken("live-instance high-water mark differs (%s): model %d implementation %d" % (tid, m["max_live"], t["max_live"]), t["steps"])
 
+    flights = read_jsonl(os.path.join(ctx.work, "c30_flight.jsonl"))
+    if rc == 0 and len(flights) < 10:
+        ctx.tie_broken("go-harness single-flight contract (TestVerifC30Flight)", out)
+    for fl in flights:
+        if fl.get("max_live", 0) > 1 or fl.get("unnamed"):
+            what = ("%d live instances on nodes %s" % (fl["max_live"], fl.get("max_on"))) if fl.get("max_live", 0) > 1 else fl["unnamed"]
+            ctx.violation("at_most_one_active:second-activation-while-flight-in-progress",
+                          "%s: while the activation flight of node 0 (failing operations %s) stood at its operation #%d (%s) a second caller on the same node %s; "
+                          "then another node addressed the identity" % (what, fl["fails"], fl["probe_at"], fl.get("probe_hook"),
+                                                                       "ran an activation of its own" if fl.get("independent") else "waited"),
+                          {"scenario": {k: fl.get(k) for k in ("fails", "probe_at", "probe_hook", "independent", "notes")}, "registry_ops": fl.get("ops"),
+                           "how": "TestVerifC30Flight in go/inpkg/actor/zz_verif_C30_test.go"})
     # the witnesses must still be witnesses on the real code while they are listed as known findings
     for st in stress:
         if st.get("where"):
@@ -270,10 +290,13 @@ def run(ctx):
     for i in range(60 if ctx.thorough else 20):
         ops = []
         for _ in range(ctx.rng.choice([8, 16, 30])):
-            ops.append({"op": ctx.rng.choice(["put", "pia", "pia", "remove"]), "k": ctx.rng.randrange(0, 3), "v": ctx.rng.randrange(1, 4)})
+            ops.append({"op": ctx.rng.choice(["put", "pia", "pia", "remove", "tick"]), "k": ctx.rng.randrange(0, 3), "v": ctx.rng.randrange(1, 4)})
         reg_cases.append({"id": "c%d" % i, "ops": ops})
     reg_cases.append({"id": "nx", "ops": [{"op": "pia", "k": 0, "v": 1}, {"op": "pia", "k": 0, "v": 2}, {"op": "put", "k": 0, "v": 3},
                                           {"op": "remove", "k": 0, "v": 0}, {"op": "pia", "k": 0, "v": 2}]})
+    # a claim must persist until it is released, however long the claimer takes to activate and publish
+    reg_cases.append({"id": "claim_persists", "ops": [{"op": "pia", "k": 1, "v": 1}, {"op": "tick", "k": 0, "v": 0}, {"op": "pia", "k": 1, "v": 2},
+                                                      {"op": "put", "k": 1, "v": 1}, {"op": "tick", "k": 0, "v": 0}, {"op": "pia", "k": 1, "v": 3}]})
     with open(os.path.join(ctx.work, "c30_reg_cases.jsonl"), "w") as f:
         for c in reg_cases:
             f.write(json.dumps(c) + "\n")
@@ -287,6 +310,8 @@ def run(ctx):
         ctx.tie_broken("go-harness internal/cluster grain record operations", out3)
     else:
         def opl(o):
+            if o["op"] == "tick":
+                return "RExists 99"  # time passing is not a registry operation: in the model records persist until removed (Registry.r_persist)
             return {"put": "RPut %d %d", "pia": "RPutIfAbsent %d %d"}.get(o["op"], "RRemove %d") % ((o["k"], o["v"]) if o["op"] != "remove" else (o["k"],))
         items = []
         for c, o in zip(reg_cases, reg_out):
@@ -323,7 +348,11 @@ def run(ctx):
         # the claim must be an NX put: property-level oracle on the real code, independent of the model
         for c, o in zip(reg_cases, reg_out):
             owner = {}
-            for op, r, nx in zip(c["ops"], o["res"], o["nx"]):
+            for i, (op, r, nx) in enumerate(zip(c["ops"], o["res"], o["nx"])):
+                if op["op"] in ("pia", "put") and (o.get("ttl") or [False] * len(o["res"]))[i]:
+                    ctx.violation("grain-record:written-with-expiry", "cluster.%s wrote the record of grain %d with an expiry: an ownership claim/record must persist until released" % ("PutGrainIfAbsent" if op["op"] == "pia" else "PutGrain", op["k"]),
+                                  {"ops": c["ops"][:i + 1], "results": o["res"][:i + 1], "expiry_option_seen": o["ttl"][:i + 1]})
+                    break
                 if op["op"] == "pia":
                     if op["k"] in owner and r == 0:
                         ctx.violation("PutGrainIfAbsent:overwrites-existing-claim", "cluster.PutGrainIfAbsent succeeded for grain %d although node %d already holds the record" % (op["k"], owner[op["k"]]),
@@ -346,7 +375,7 @@ def run(ctx):
     ctx.coverage.update({
         "evaluations": len(traces) + sum(s.get("rounds", 0) for s in stress),
         "distinct_nontrivial": len(distinct),
-        "rule": "corpus scripts (Coq witnesses at harness granularity + a rollback case) then seeded random schedules over 3 nodes in three flavours "
+        "rule": "corpus scripts (Coq witnesses at harness granularity + a rollback case), the fault+race family (victim flight with failures at chosen operations x a complete competitor flight inserted before each operation), then seeded random schedules over 3 nodes in three flavours "
                 "(guarded = inside the guard of C30_partial; claimless = no deactivation threads, claim-less continuation allowed; overlap = deactivation may "
                 "overlap the flight, claim-less continuation avoided), failure injection 0-40% per step; non-trivial = at least 6 steps including a leader "
                 "operation; distinct by the label sequence",
@@ -356,6 +385,7 @@ def run(ctx):
         "traces_with_two_live_instances": two_live, "model_vs_impl_mismatches": n_mis,
         "stress": [{k: v for k, v in s.items() if k != "ops"} for s in stress],
         "known_schedule_shapes_replayed": sorted(known_seen),
+        "single_flight_probe_scenarios": len(flights), "single_flight_second_caller_independent": sum(1 for f in flights if f.get("independent")),
         "cluster_record_op_cases": len(reg_cases), "cluster_record_op_mismatches": reg_mis,
         "theorems": ["C30_refuted", "C30_registry_refuted", "C30_refuted_no_failure", "C30_partial", "C30_partial_repaired", "C30_repaired_guard_is_overlap_only", "C30_partial_at_most_one", "C30_partial_registry_names_holder", "C30_partial_nonvacuous", "C30_registry_nx_exclusive"],
     })
